@@ -21,6 +21,8 @@ type edit struct {
 	File string `json:"file"` // relative to the repository root
 	Old  string `json:"old"`
 	New  string `json:"new"`
+	// Occurrence selects the k-th (1-based) occurrence of Old when the text appears more than once
+	Occurrence int `json:"occurrence,omitempty"`
 }
 
 func usage() {
@@ -267,8 +269,20 @@ func check(id string, args []string) (code int) {
 					return 2
 				}
 			}
-			if strings.Count(string(src), e.Old) != 1 {
-				fmt.Printf("OVERLAY-NOT-APPLICABLE %s: old text occurs %d times\n", e.File, strings.Count(string(src), e.Old))
+			cnt := strings.Count(string(src), e.Old)
+			if e.Occurrence > 0 && e.Occurrence <= cnt {
+				// the k-th occurrence (two statement entries with the same text)
+				idx, from := -1, 0
+				for k := 0; k < e.Occurrence; k++ {
+					j := strings.Index(string(src)[from:], e.Old)
+					idx = from + j
+					from = idx + len(e.Old)
+				}
+				opt.Overlay[abs] = []byte(string(src)[:idx] + e.New + string(src)[idx+len(e.Old):])
+				continue
+			}
+			if cnt != 1 {
+				fmt.Printf("OVERLAY-NOT-APPLICABLE %s: old text occurs %d times\n", e.File, cnt)
 				return 3
 			}
 			opt.Overlay[abs] = []byte(strings.Replace(string(src), e.Old, e.New, 1))
